@@ -56,6 +56,10 @@ def handwritten():
         S.append(({}, [(REQ, con), (REQ, follow), (RES, r1 + ok2), (CLOSE, None)]))
         S.append(({'AUTO_DESTROY': 1}, [(REQ, con + follow), (RES, r1), (RES, ok2), (CLOSE, None)]))
         S.append(({}, [(REQ, con + tls), (RES, r1), (REQ, tls), (RES, tls), (CLOSE, None)]))
+    # CONNECT answered by interim 100 responses (with header fields, cut inside the header block) before the final answer, request data
+    # offered in between (FX-C16-interim-100-wait)
+    S.append(({}, [(REQ, con + tls), (RES, b'HTTP/1.1 100 Continue\r\nX'), (RES, b'-Proxy: p\r\n\r'), (RES, b'\nHTTP/1.1 200 Connection established\r\n\r\n'), (REQ, tls), (RES, tls), (CLOSE, None)]))
+    S.append(({}, [(REQ, con), (RES, b'HTTP/1.1 100 Continue\r\nX-Proxy: p\r\n'), (REQ, follow), (RES, b'\r\nHTTP/1.1 403 Forbidden\r\nContent-Length: 0\r\n\r\n'), (RES, ok2), (CLOSE, None)]))
     # upgrade
     S.append(({}, [(REQ, b'GET /ws HTTP/1.1\r\nHost: h\r\nConnection: Upgrade\r\nUpgrade: websocket\r\n\r\n'),
                    (RES, b'HTTP/1.1 101 Switching Protocols\r\nUpgrade: websocket\r\nConnection: Upgrade\r\n\r\n'), (REQ, b'\x81\x05hello'), (RES, b'\x81\x02hi'), (CLOSE, None)]))
